@@ -270,6 +270,11 @@ def main(argv=None):
 
     # 7. verdict
     nviol = len(ctx.violations)
+    if ctx.violations:
+        by = {}
+        for v in ctx.violations:
+            by[v['what'][:160]] = by.get(v['what'][:160], 0) + 1
+        ctx.stats['violations_by_what'] = by          # the replay file keeps the first 20 only
     lines_out = []
     if ctx.violations:
         rp = core.write_replay(pid, 'violation', {
